@@ -288,10 +288,13 @@ class InlineTranslator:
 
         ### check if tuple set semantic does not allow for unique identification
         replace_terms = [stm.weight, stm.priority] + list(stm.terms)
+        other_tuples = list(self.minimize_tuples)
+        if replace_terms in other_tuples:
+            other_tuples.remove(replace_terms)  # only this statement itself, another one may have the same tuple
         if any(
             map(
                 lambda x: potentially_unifying_sequence(x, replace_terms),
-                [t for t in self.minimize_tuples if t != replace_terms],
+                other_tuples,
             )
         ):
             log.info(f"Cannot inline agregate into {str(stm)} as the tuple is not unique.")
@@ -299,6 +302,13 @@ class InlineTranslator:
 
         # replace body aggregate with inlined version of the conditions
         rbody = [blit for blit in stm.body if not (blit.ast_type == ASTType.Literal and blit.atom == agg)]
+        # the aggregate is evaluated per binding of the rest of the body, these variables have to be in the tuple
+        tuple_vars: set[AST] = set(collect_ast(stm.priority, "Variable"))
+        for term in stm.terms:
+            tuple_vars.update(collect_ast(term, "Variable"))
+        if not global_vars_inside_body(rbody).issubset(tuple_vars):
+            log.info(f"Cannot inline agregate into {str(stm)} as not all variables are part of the tuple.")
+            return [stm]
         new_minimizes = []
         max_arity = 0
         for tuple_ in self.minimize_tuples:
